@@ -23,6 +23,7 @@ import Dblib.Model.ValueSpec
 import Dblib.Lemmas.ValueSpec
 import Dblib.Lemmas.ValueText
 import Dblib.Props.C04
+import Dblib.Props.C05.ClockReading
 
 namespace Dblib.Props.C05
 open Dblib Dblib.Value Dblib.AseTime Dblib.Gen
